@@ -232,12 +232,14 @@ class TimeDelta:
     @classmethod
     def from_tuple(cls, value: TimeValueTuple) -> Self:
         """Create a TimeDelta from 64-bit whole seconds and fractional seconds ints."""
-        if not (_INT64_MIN <= value.whole_seconds <= _INT64_MAX):
-            raise int_out_of_range(value.whole_seconds, _INT64_MIN, _INT64_MAX)
-        if not (_UINT64_MIN <= value.fractional_seconds <= _UINT64_MAX):
-            raise int_out_of_range(value.fractional_seconds, _UINT64_MIN, _UINT64_MAX)
-        ticks = value.whole_seconds << _BITS_PER_SECOND
-        ticks = ticks | value.fractional_seconds
+        whole_seconds = arg_to_int("whole seconds", value.whole_seconds)
+        fractional_seconds = arg_to_int("fractional seconds", value.fractional_seconds)
+        if not (_INT64_MIN <= whole_seconds <= _INT64_MAX):
+            raise int_out_of_range(whole_seconds, _INT64_MIN, _INT64_MAX)
+        if not (_UINT64_MIN <= fractional_seconds <= _UINT64_MAX):
+            raise int_out_of_range(fractional_seconds, _UINT64_MIN, _UINT64_MAX)
+        ticks = whole_seconds << _BITS_PER_SECOND
+        ticks = ticks | fractional_seconds
         return cls.from_ticks(ticks)
 
     def _to_datetime_timedelta(self) -> dt.timedelta:
